@@ -14,15 +14,32 @@ var verifProbesSent int32
 var verifStopReturned int32
 var verifProbeAfterStop int32
 
-// verifStubProbe replaces performHealthCheck under the executor: the probe is
-// "sent" (counted) and fails like a refused connection. Natively the real
-// performHealthCheck dials the backend address 127.0.0.1:1, which is refused.
-func verifStubProbe(lb *LoadBalancer, backend *Backend) (*http.Response, error) {
+// verifProbeMode selects what a backend does with a health probe.
+var verifProbeMode int32 // 0: refuses the connection, 1: accepts and never answers (hung backend), 2: answers 200
+
+// verifClientDo replaces (*http.Client).Do under the executor, so that the real
+// performHealthCheck (request construction, its context, the client timeout)
+// is executed. A hung backend holds the probe until the request's context is
+// done or the client's own timeout fires - exactly what net/http does.
+func verifClientDo(c *http.Client, req *http.Request) (*http.Response, error) {
 	atomic.AddInt32(&verifProbesSent, 1)
 	if atomic.LoadInt32(&verifStopReturned) == 1 {
 		atomic.StoreInt32(&verifProbeAfterStop, 1)
 	}
 	verifrt.Yield()
+	switch atomic.LoadInt32(&verifProbeMode) {
+	case 1:
+		ctx := req.Context()
+		if c.Timeout > 0 {
+			var cancel context.CancelFunc
+			ctx, cancel = context.WithTimeout(ctx, c.Timeout)
+			defer cancel()
+		}
+		<-ctx.Done()
+		return nil, ctx.Err()
+	case 2:
+		return &http.Response{StatusCode: http.StatusOK, Body: http.NoBody}, nil
+	}
 	return nil, errors.New("verif: connection refused")
 }
 
@@ -62,7 +79,9 @@ func VerifC19Stop(mode int, n int, ticks int) {
 	atomic.StoreInt32(&verifProbesSent, 0)
 	atomic.StoreInt32(&verifStopReturned, 0)
 	atomic.StoreInt32(&verifProbeAfterStop, 0)
-	lb, conns := verifStoppableLB(n, true, mode != 0)
+	atomic.StoreInt32(&verifProbeMode, 0)
+	lb, conns := verifStoppableLB(n, true, true)
+	verifrt.Settle() // the pool's cleanup goroutine is parked on its ticker before the race begins
 	stopped := int32(0)
 	switch mode {
 	case 0: // the health-check goroutine (initial round + ticks) racing Stop
@@ -70,6 +89,21 @@ func VerifC19Stop(mode int, n int, ticks int) {
 		verifrt.Ticks(ticks)
 		lb.startHealthChecks()
 		verifrt.Go(func() { lb.Stop(); atomic.StoreInt32(&verifStopReturned, 1); atomic.StoreInt32(&stopped, 1) })
+	case 3, 4: // Stop while a probe is in flight to a hung (3) / healthy (4) backend
+		atomic.StoreInt32(&verifProbeMode, int32(mode-2))
+		lb.healthChecks.activeTimeout = time.Duration(verifrt.IntRange("active_timeout_ns", int(time.Millisecond), int(3*time.Second)))
+		lb.healthChecks.activeInterval = lb.healthChecks.activeTimeout + time.Second
+		budget := time.Duration(verifrt.IntRange("shutdown_timeout_ns", int(time.Second), int(2*time.Second)))
+		verifrt.Ticks(ticks)
+		lb.startHealthChecks()
+		verifrt.Go(func() {
+			sw := verifrt.StartStopwatch()
+			lb.Stop()
+			el := verifrt.Elapsed(sw)
+			atomic.StoreInt32(&verifStopReturned, 1)
+			atomic.StoreInt32(&stopped, 1)
+			verifrt.Assert(el <= budget, "Stop completes within the shutdown timeout even with a probe in flight to a backend that never answers")
+		})
 	case 1: // two concurrent Stops
 		verifrt.Go(func() { lb.Stop() })
 		verifrt.Go(func() { lb.Stop(); atomic.StoreInt32(&stopped, 1) })
